@@ -13,7 +13,13 @@ GAPS = [0, 0, 0.5, 1, 2]
 def cases(draw, tier):
     big = tier == 'thorough'
     item = [0]
-    sl = lambda: {'op': 'sleep', 'd': draw(st.sampled_from(GAPS))}  # noqa
+    start = draw(st.sampled_from([0, 0, 0, -2, -1.5, 3]))
+
+    def sl():
+        # pacing by relative delays or by absolute dates (dates in the past complete at once)
+        if draw(st.integers(0, 3)) == 0:
+            return {'op': 'at_ge', 't': draw(st.sampled_from([0, 0, 0.5, 1, 2, start + 1]))}
+        return {'op': 'sleep', 'd': draw(st.sampled_from(GAPS))}
 
     def producer(i):
         steps = []
@@ -38,7 +44,7 @@ def cases(draw, tier):
                 steps.append({'op': 'cget', 's': 0})
             elif r < 7:
                 steps.append({'op': 'citer', 's': 0, 'n': draw(st.sampled_from([None, None, 1, 2, 3])),
-                              'gap': draw(st.sampled_from([None, None, 0.5, 1, 2]))})
+                              'gap': draw(st.sampled_from([None, None, 0.5, 1, 2, 'tick']))})
             elif r < 9:
                 steps.append(sl())
             else:
@@ -56,17 +62,17 @@ def cases(draw, tier):
     blk = {'op': 'scope', 'name': 'S', 'children': kids, 'body': [], 'catch': True}
     if draw(st.integers(0, 6)) == 0:
         blk['op'], blk['notif'] = 'until', (['delay', draw(st.sampled_from([0.5, 1, 2, 3]))] if draw(st.booleans()) else ['flag', 0])
-    ctl = {'name': 'ctl', 'steps': [{'op': 'at_eq', 't': draw(st.sampled_from([0.5, 1, 2]))}] +
+    ctl = {'name': 'ctl', 'steps': [{'op': 'at_eq', 't': start + draw(st.sampled_from([0.5, 1, 2]))}] +
            [{'op': 'instant'} for _ in range(draw(st.integers(0, 3)))] + [{'op': 'set_flag', 'i': 0, 'v': True}]}
     fin = {'name': 'fin', 'steps': [{'op': 'at_ge', 't': 500}, {'op': 'cclose', 's': 0}, {'op': 'cget', 's': 0},
                                     {'op': 'cput', 's': 0, 'v': 9999}]}
     oc = {'name': 'oc', 'steps': [{'op': 'sleep', 'd': draw(st.sampled_from([0, 0.5, 1]))},
-                                  {'op': 'citer', 's': 0, 'n': None, 'gap': draw(st.sampled_from([None, 1, 3]))}]}
+                                  {'op': 'citer', 's': 0, 'n': None, 'gap': draw(st.sampled_from([None, 1, 3, 'tick']))}]}
     roots = [{'name': 'r0', 'steps': [blk]}, ctl]
     if draw(st.booleans()):
         roots.insert(draw(st.integers(0, 1)), oc)
     roots.append(fin)
-    prog = {'start': 0, 'objs': {'channels': 1, 'flags': 1}, 'roots': roots}
+    prog = {'start': start, 'objs': {'channels': 1, 'flags': 1}, 'roots': roots}
     targets = [k['name'] for k in kids if k['name'].startswith('c')] or [kids[0]['name']]
     if big and draw(st.integers(0, 2)) == 0:
         faults = 'all'
